@@ -116,6 +116,8 @@ pub struct Catalog {
     meta_table: PageId,
     meta_index: PageId,
     pager: SharedPager,
+    /// Highest row id handed out so far, per table (see [Catalog::allocate_row_id]).
+    row_ids: parking_lot::Mutex<std::collections::HashMap<ObjectId, u64>>,
 }
 
 impl Catalog {
@@ -124,7 +126,33 @@ impl Catalog {
             meta_table,
             meta_index,
             pager,
+            row_ids: parking_lot::Mutex::new(std::collections::HashMap::new()),
         }
+    }
+
+    /// Hands out the next row id of a table. The counter lives in the table's catalog row,
+    /// which concurrent inserters read and write back independently of each other: two of them
+    /// used to get the same id, and the second row was dropped as "already there". This
+    /// in-memory high-water mark (never below the stored counter) makes the ids distinct; the
+    /// value to store back is [Catalog::next_row_id_to_store].
+    pub(crate) fn allocate_row_id(&self, table: ObjectId, stored_next: u64) -> u64 {
+        let mut row_ids = self.row_ids.lock();
+        let next = row_ids.entry(table).or_insert(stored_next);
+        if *next < stored_next {
+            *next = stored_next;
+        }
+        let id = *next;
+        *next += 1;
+        id
+    }
+
+    /// The counter value to store in the table's catalog row after an insert.
+    pub(crate) fn next_row_id_to_store(&self, table: ObjectId, at_least: u64) -> u64 {
+        self.row_ids
+            .lock()
+            .get(&table)
+            .copied()
+            .map_or(at_least, |next| next.max(at_least))
     }
 
     /// Converts a relation into a meta table tuple for storage.
